@@ -3,5 +3,5 @@
 export GOFLAGS=-mod=mod GOPROXY=off GOSUMDB=off GOTOOLCHAIN=local
 S=/tmp/govc-dev
 mkdir -p $S
-rsync -a --delete --exclude .git /repo/ $S/
+[ -n "$SKIP_SYNC" ] || rsync -a --delete --exclude .git /repo/ $S/
 exec /verif/bin/govc -repo $S "$@"
